@@ -385,3 +385,32 @@ package raft
 //@   ensures  term_change_resets_role: r.currentTerm != old(r.currentTerm) ==> r.state == Follower
 //@   ensures  refuse_while_leader_known: old(r.leaderAddr) != "" && old(r.leaderAddr) != decodePeerOf(candOf(req)) && !req.LeadershipTransfer ==> !voteResp(rpc).Granted
 //@   ensures  log_untouched: r.lastLogIndex == old(r.lastLogIndex) && r.lastLogTerm == old(r.lastLogTerm) && r.commitIndex == old(r.commitIndex) && r.lastApplied == old(r.lastApplied)
+
+// ---------------------------------------------------------------------------
+// C09: VerifyLeader
+
+//@ func (r *Raft) verifyLeader
+//@   requires nonnil: r != nil && v != nil && r.leaderState.replState != nil && r.leaderState.notify != nil
+//@   requires repl_nonnil: forall id ServerID :: dom(r.leaderState.replState, id) ==>
+//@              r.leaderState.replState[id] != nil && r.leaderState.replState[id].notify != nil
+//@   requires repl_distinct: forall a ServerID, b ServerID :: a != b && dom(r.leaderState.replState, a) && dom(r.leaderState.replState, b) ==>
+//@              r.leaderState.replState[a] != r.leaderState.replState[b] && r.leaderState.replState[a].notify != r.leaderState.replState[b].notify
+//@   requires notify_disjoint: forall id ServerID :: dom(r.leaderState.replState, id) ==> r.leaderState.replState[id].notify != r.leaderState.notify
+//@   ensures  tally_init: v.votes == 1 && v.quorumSize == voterCount(r.configurations.latest)/2 + 1
+//@   ensures  registered_only_with_voters: forall id ServerID :: dom(r.leaderState.replState, id) &&
+//@              dom(r.leaderState.replState[id].notify, v) && !old(dom(r.leaderState.replState[id].notify, v)) ==>
+//@              hasVoteSpec(r.configurations.latest, id)
+//@   ensures  fast_path_only_single_voter: sent(v.errCh) != old(sent(v.errCh)) ==> v.quorumSize == 1
+//@   loop 1 invariant registered: forall id ServerID :: dom(r.leaderState.replState, id) &&
+//@              dom(r.leaderState.replState[id].notify, v) && !old(dom(r.leaderState.replState[id].notify, v)) ==>
+//@              hasVoteSpec(r.configurations.latest, id)
+//@   loop 1 invariant stable: v.votes == 1 && v.quorumSize == voterCount(r.configurations.latest)/2 + 1 && v.quorumSize != 1 && sent(v.errCh) == old(sent(v.errCh))
+
+//@ func (v *verifyFuture) vote
+//@   requires nonnil: v != nil
+//@   requires votes_bounded: v.votes < MaxInt63
+//@   modifies v.votes, v.notifyCh, sent(v.notifyCh)
+//@   ensures  one_vote: v.votes == old(v.votes) || (leader && v.votes == old(v.votes) + 1)
+//@   ensures  positive_needs_quorum: leader && sent(old(v.notifyCh)) != old(sent(v.notifyCh)) ==> v.votes >= v.quorumSize
+//@   ensures  notified_once: sent(old(v.notifyCh)) != old(sent(v.notifyCh)) ==> v.notifyCh == nil
+//@   ensures  silent_after_notification: old(v.notifyCh) == nil ==> v.votes == old(v.votes)
